@@ -27,6 +27,7 @@ type nativeCase struct {
 	Params  map[string]int    `json:"params,omitempty"`
 	Dir     string            `json:"dir,omitempty"`
 	Phase   int               `json:"phase,omitempty"`
+	WalClock [][2]int64       `json:"wal_clock,omitempty"`
 }
 
 type nativeResult struct {
@@ -41,7 +42,7 @@ type nativeResult struct {
 }
 
 func caseOf(id string, j Job, v interp.Violation) nativeCase {
-	c := nativeCase{ID: id, Fn: j.Fn, Fn2: j.Fn2, Inputs: v.W.Inputs, Chooses: v.W.Chooses, Coins: v.W.Coins, Obs: v.W.Obs, Records: v.W.Records, Params: j.Params}
+	c := nativeCase{ID: id, Fn: j.Fn, Fn2: j.Fn2, Inputs: v.W.Inputs, Chooses: v.W.Chooses, Coins: v.W.Coins, Obs: v.W.Obs, Records: v.W.Records, Params: j.Params, WalClock: v.W.WalClock}
 	if c.Inputs == nil {
 		c.Inputs = map[string]uint64{}
 	}
@@ -97,6 +98,23 @@ func (r *propRun) nativeReplay(j Job, cases []nativeCase, extraEnv []string, ext
 		ov[v] = real
 	}
 	ov[filepath.Join(pkgDir, "zz_verif_replay_test.go")] = tf
+	needClock := false
+	for _, c := range cases {
+		if len(c.WalClock) > 0 {
+			needClock = true
+		}
+	}
+	if needClock {
+		// overlay-only copy of wal/wal.go whose time.Now() is the witness's clock
+		if src, err := os.ReadFile(filepath.Join(repoDir, "wal/wal.go")); err == nil && strings.Contains(string(src), "time.Now()") {
+			mod := strings.Replace(string(src), "time.Now()", "zzvf.WalNow()", -1)
+			mod = strings.Replace(mod, "import (", "import (\n\tzzvf \""+modPath+"/internal/zzvf\"", 1) + "\nvar _ = time.Now\n"
+			wf2 := filepath.Join(dir, "wal_clock.go")
+			if os.WriteFile(wf2, []byte(mod), 0644) == nil {
+				ov[filepath.Join(repoDir, "wal/wal.go")] = wf2
+			}
+		}
+	}
 	ob, _ := json.Marshal(map[string]any{"Replace": ov})
 	of := filepath.Join(dir, "overlay.json")
 	if err := os.WriteFile(of, ob, 0644); err != nil {
